@@ -225,6 +225,7 @@ func (s *Sim) genWorkloads(withTApp bool) {
 	}
 	n := 2 + rng.Intn(3)
 	poolNames := []string{"", "", "pa", "pb"}
+	lastBare := ""
 	for i := 0; i < n; i++ {
 		wl := &Workload{Name: fmt.Sprintf("w%d", i), Replicas: 1 + rng.Intn(3), Exists: true, Policy: pols()}
 		switch x := rng.Intn(10); {
@@ -250,6 +251,11 @@ func (s *Sim) genWorkloads(withTApp bool) {
 			} else {
 				wl.Name = fmt.Sprintf("b%d", i)
 			}
+			if lastBare != "" && rng.Intn(2) == 0 {
+				// the key of the earlier bare pod is a proper string prefix of this one's (web-1 / web-10)
+				wl.Name = lastBare + "0"
+			}
+			lastBare = wl.Name
 		}
 		// requested ranges for non-deployment workloads sometimes
 		rangesOneIn := 4
@@ -661,6 +667,11 @@ func (s *Sim) stepReload(t *model.Topo) error {
 		s.W.SetConfigMap(s.W.ConfText)
 	}
 	s.record("reload", fmt.Sprintf("%d pools", len(t.Pools)), errStr(err))
+	if err != nil && s.faultMode == world.None && !s.compound {
+		// every configuration the harness writes is valid by its model and no call was failed: a reload that is refused
+		// leaves the old configuration in force, i.e. removed addresses stay allocatable and nothing is dropped
+		s.alarm("C09", "valid-configuration-refused-by-reload", fmt.Sprintf("fault-free reload of a valid configuration failed: %v; configuration text: %s", err, text))
+	}
 	return err
 }
 
